@@ -1306,6 +1306,19 @@ fn permission_query(req: &J) -> J {
     json!({"query": got, "brute_force": want})
 }
 
+/// the edit distance behind "did you mean" (through the public fuzzy_search with a distance limit; a panic is caught by the caller)
+fn fuzzy(req: &J) -> J {
+    use cedar_policy_core::fuzzy_match::fuzzy_search_limited;
+    let (key, word) = (req["key"].as_str().unwrap_or(""), req["word"].as_str().unwrap_or(""));
+    let words = [word.to_string()];
+    // smallest limit under which the word is returned = the distance
+    let mut d = J::Null;
+    for k in 0..16usize {
+        if fuzzy_search_limited(key, &words, Some(k)).is_some() { d = json!(k); break; }
+    }
+    json!({"distance": d, "unlimited": cedar_policy_core::fuzzy_match::fuzzy_search(key, &words)})
+}
+
 fn handle(req: &J) -> J {
     match req["op"].as_str().unwrap_or("") {
         "eval" => eval(req),
@@ -1329,6 +1342,7 @@ fn handle(req: &J) -> J {
         "ffi_validate" => ffi_validate(req),
         "proto_roundtrip" => proto_roundtrip(req),
         "permission_query" => permission_query(req),
+        "fuzzy" => fuzzy(req),
         "ffi_convert" => ffi_convert(req),
         other => json!({"unknown_op": other}),
     }
